@@ -277,6 +277,9 @@ func (u *Unit) evalIdent(st *State, x *ast.Ident) *Val {
 	}
 	switch o := obj.(type) {
 	case *types.Var:
+		if r, esc := st.escaped[o]; esc {
+			return u.loadStruct(st, r, types.NewPointer(o.Type()))
+		}
 		if v, ok := st.vars[o]; ok {
 			return v
 		}
@@ -399,11 +402,17 @@ func (u *Unit) evalAddrOf(st *State, x *ast.UnaryExpr) *Val {
 	// (the address is then field-offset free: we cannot name it) -> allocate an alias cell and note it.
 	if id, ok := inner.(*ast.Ident); ok {
 		if obj, ok := u.info.Uses[id].(*types.Var); ok {
+			if r, esc := st.escaped[obj]; esc {
+				return &Val{T: t, S: r}
+			}
 			if cur, ok := st.vars[obj]; ok && kindOf(cur.T) == kStruct {
-				// move the local to the heap: subsequent uses of the variable go through the cell
+				// the local moves to the heap: every later use of the variable goes through this cell
 				r := u.alloc(st)
 				u.storeStruct(st, r, t, cur)
-				u.note("address of local struct " + id.Name + " taken: later direct writes to it are not reflected through the pointer")
+				if st.escaped == nil {
+					st.escaped = map[types.Object]string{}
+				}
+				st.escaped[obj] = r
 				return &Val{T: t, S: r}
 			}
 		}
